@@ -2202,3 +2202,123 @@ func ruleServerResponseEncoding(p *Prog, r *Out) {
 		r.check(consumed, "carried-over header bytes are consumed once", p.pos(fd.Pos()), "b = append(previous, frame...); previous = b[:0]", "the bytes carried over from the previous frame are no longer cleared after being prepended: they are decoded again with every following frame")
 	}
 }
+
+func init() {
+	register(&Rule{
+		Name: "small-predicates", Props: []string{"C01", "C06", "C08", "C18", "C05"}, Engine: "FDE", Floor: 4,
+		Doc: "one-line predicates that several loops rely on, compared with their definition on every point of a small domain: Stream.hasMoreToSend is 'octets pending or a body stream attached'; Stream.continuingHeaders is 'a CONTINUATION frame while the header block is open'; the decoded ENABLE_PUSH flag is 'value != 0'; a SETTINGS frame is refused exactly when it has ACK set and a payload",
+		Run: func(p *Prog, r *Out) {
+			if fd := p.decl("(*Stream).hasMoreToSend"); fd != nil {
+				r.fn("(*Stream).hasMoreToSend")
+				c := fdeCheck{p, r, p.pos(fd.Pos())}
+				c.expr("hasMoreToSend", singleReturn(fd), fdeDomain{[]string{"len(s.pendingData)", "s.bodyStream!=nil"}, [][]int64{seq(0, 2), {0, 1}}}, nil, func(e fdeEnv) int64 { return b2i(e["len(s.pendingData)"] > 0 || e["s.bodyStream!=nil"] != 0) }, "len(pendingData) > 0 || bodyStream != nil", "the resume branches only look at streams for which this is true: a stream with one pending octet, or with a body stream whose chunk has just been sent, must count")
+			} else {
+				r.undecided("(*Stream).hasMoreToSend", "?", "no longer resolves")
+			}
+			if fd := p.decl("(*Stream).continuingHeaders"); fd != nil {
+				r.fn("(*Stream).continuingHeaders")
+				c := fdeCheck{p, r, p.pos(fd.Pos())}
+				c.expr("continuingHeaders", singleReturn(fd), fdeDomain{[]string{"fr.Type()", "s.headersFinished"}, [][]int64{seq(0, 9), {0, 1}}}, nil, func(e fdeEnv) int64 { return b2i(e["fr.Type()"] == 9 && e["s.headersFinished"] == 0) }, "type == CONTINUATION && !headersFinished", "frames on a half-closed stream are legal only as the continuation of its open header block")
+			} else {
+				r.undecided("(*Stream).continuingHeaders", "?", "no longer resolves")
+			}
+			if fd := p.decl("(*Settings).Read"); fd != nil {
+				r.fn("(*Settings).Read")
+				c := fdeCheck{p, r, p.pos(fd.Pos())}
+				var e ast.Expr
+				ast.Inspect(fd.Body, func(n ast.Node) bool {
+					if as, ok := n.(*ast.AssignStmt); ok && len(as.Lhs) == 1 && p.isFieldSel(as.Lhs[0], "Settings", "enablePush") {
+						e = as.Rhs[0]
+					}
+					return true
+				})
+				c.expr("decoded ENABLE_PUSH", e, fdeDomain{[]string{"value"}, [][]int64{{0, 1}}}, nil, func(e fdeEnv) int64 { return b2i(e["value"] != 0) }, "value != 0", "0 disables push and 1 enables it")
+			}
+			if fd := p.decl("(*Settings).Deserialize"); fd != nil {
+				r.fn("(*Settings).Deserialize")
+				ok := false
+				for _, s := range fd.Body.List {
+					if ifs, isIf := s.(*ast.IfStmt); isIf && isRejectingBody(p, ifs.Body) && strings.Contains(p.text(ifs.Cond), "IsAck()") {
+						atoms, pure := pureJunction(ifs.Cond, true)
+						ack, pay := false, false
+						for _, a := range atoms {
+							if a.Val && squash(p.text(a.Cond)) == "st.IsAck()" {
+								ack = true
+							}
+							if cmp, okc := p.canonCmp(a.Cond, nil); okc && a.Val && cmp.Op == "le" && cmp.L.eq(Lin{T: map[string]int64{"len(fr.payload)": -1}, C: 1}) {
+								pay = true
+							}
+						}
+						ok = pure && len(atoms) == 2 && ack && pay
+					}
+				}
+				r.check(ok, "SETTINGS with ACK and a payload is refused, nothing else", p.pos(fd.Pos()), "IsAck() && len(payload) > 0 -> FRAME_SIZE_ERROR", "the ACK-with-payload test of Settings.Deserialize is no longer exactly 'ACK set and at least one octet of payload': every acknowledgement, or every SETTINGS frame with parameters, is refused")
+			}
+		},
+	})
+	register(&Rule{
+		Name: "replace-idiom", Props: []string{"C01", "C02", "C05", "C16", "C19"}, Engine: "AST", Floor: 25,
+		Doc: "wherever a buffer field is refilled with `x = append(x[:k], other...)` from something other than itself, k is 0: the refill replaces what the pooled object held before; and wherever a buffer field is emptied with `x = x[:k]`, k is 0",
+		Run: func(p *Prog, r *Out) {
+			n := 0
+			var names []string
+			for name := range p.funcDecls {
+				names = append(names, name)
+			}
+			sortStrings(names)
+			for _, fn := range names {
+				fd := p.funcDecls[fn]
+				if fd.Body == nil {
+					continue
+				}
+				ord := map[string]int{}
+				ast.Inspect(fd.Body, func(nd ast.Node) bool {
+					as, ok := nd.(*ast.AssignStmt)
+					if !ok || len(as.Lhs) != 1 || len(as.Rhs) != 1 || as.Tok != token.ASSIGN {
+						return true
+					}
+					lhs := squash(p.text(as.Lhs[0]))
+					if _, isSel := ast.Unparen(as.Lhs[0]).(*ast.SelectorExpr); !isSel {
+						return true
+					}
+					var k int64 = -1
+					kind := ""
+					switch x := ast.Unparen(as.Rhs[0]).(type) {
+					case *ast.CallExpr:
+						if p.calleeOf(x) == "builtin.append" && len(x.Args) >= 2 {
+							if base, lo, hi, ok := p.sliceBounds(x.Args[0]); ok && squash(base) == lhs && lo == 0 && hi >= 0 {
+								self := false
+								for _, a := range x.Args[1:] {
+									if strings.Contains(squash(p.text(a)), lhs) {
+										self = true
+									}
+								}
+								if !self {
+									k, kind = hi, "refill"
+								}
+							}
+						}
+					case *ast.SliceExpr:
+						if base, lo, hi, ok := p.sliceBounds(x); ok && squash(base) == lhs && lo == 0 && hi >= 0 {
+							k, kind = hi, "truncate"
+						}
+					}
+					if kind == "" {
+						return true
+					}
+					n++
+					key := fn + " " + kind + "s " + lhs
+					ord[key]++
+					if ord[key] > 1 {
+						key += fmt.Sprintf("#%d", ord[key])
+					}
+					r.check(k == 0, key, p.pos(as.Pos()), "from [:0]", fmt.Sprintf("%s %ss %s from [:%d]: the first %d octet(s) the pooled object held before survive in front of the new content", fn, kind, lhs, k, k))
+					return true
+				})
+			}
+			if n < 20 {
+				r.bad("refill sites found", "?", fmt.Sprintf("only %d refill/truncate sites found", n))
+			}
+		},
+	})
+}
